@@ -2,7 +2,7 @@
 # usage: tools/all_mutants.sh [ids...]  — runs, for every stored seeded change, the checks recorded as catching it
 # (quick tier unless TIER=thorough) and prints one line per change. /repo is reverted after each one.
 cd /verif || exit 2
-ids=${@:-$(ls seeded | grep '^C')}
+ids=${@:-$(ls seeded | grep "^C")}
 for id in $ids; do
   props=$(python3 -c "import json;print(' '.join(json.load(open('seeded/$id/meta.json'))['checks_that_catch_it'][:1]))")
   out=$(tools/try_mutant.sh /verif/seeded/$id/patch.diff $props 2>&1)
